@@ -129,6 +129,10 @@ Definition decl (op : Z) (ps : list Z) : option (Z * tree) :=
   (* cmux family: ps = [be; n; res(6); a(6); ggsw(6); variant] (0 cmux, 1 cmux_assign, 2 cmux_assign_neg) *)
   | 184 => let r := inf ps 2 n in let a := inf ps 8 n in let g := inf ps 14 n in
            Some (cmux_tmp_bytes fam n r a g, if p ps 20 =? 2 then tree_cmux_assign_neg fam n r a g else tree_cmux fam n r g)
+  (* FheUint two-word operations, multi-thread entry point: ps = [be; n; op; threads; T_BITS; max_state_size; res(6); ggsw(6); atk(6)] *)
+  | 187 => let r := inf ps 6 n in let g := inf ps 12 n in let k := inf ps 18 n in
+           Some (execute_bdd_circuit_2w_to_1w_multi_thread_tmp_bytes fam n (p ps 4) (p ps 3) (p ps 5) r g k,
+                 tree_bdd_2w_to_1w_multi_thread fam n (p ps 4) (p ps 3) (p ps 5) r g k)
   (* glwe_pack: ps = [be; n; res(6); inputs(6); key(6)], log_gap_out = 0; the scratch is sized through the public query for
      the layout of the result and for the layout of the inputs *)
   | 147 => let r := inf ps 2 n in let a := inf ps 8 n in let k := inf ps 14 n in
